@@ -281,6 +281,14 @@ fn open_index(config: &crate::config::Config) -> Result<(bool, Index)> {
         }
     }
 
+    // The index is about to be recreated, so whatever the metadata says about
+    // it stops being true now: forget it before touching the directory,
+    // otherwise a run that is killed before the rebuild has been committed
+    // leaves an empty index that the next run trusts.
+    if config.meta_path.is_file() {
+        fs::remove_file(&config.meta_path)?;
+    }
+
     if config.index_path.is_dir() {
         log::info!("removing index: {}", config.index_path.display());
         fs::remove_dir_all(&config.index_path)?;
